@@ -220,6 +220,14 @@ def main(argv=None):
     for oid in missing:
         if "/call-pre#" in oid:
             continue   # a call site may legitimately disappear; the callee's own obligations remain
+        if any(k in oid for k in ("/inv-init#", "/inv-preserve#", "/inv-use#", "/unwind#")):
+            # a loop may legitimately disappear (loop -> comprehension): accepted when the same function still has a
+            # functional postcondition obligation (returns / ensures / final) generated in this run
+            fn_prefix = oid.rsplit("/", 1)[0] + "/"
+            label = oid.rsplit("#", 1)[-1]
+            if any(o2.startswith(fn_prefix) and (any(k in o2 for k in ("/returns", "/ensures", "/final"))
+                                                 or ("/inv-preserve#" in o2 and o2.rsplit("#", 1)[-1] != label)) for o2 in by_id):
+                continue   # (an enclosing / other loop of the function still carries its invariant over the rewritten code)
         fn = oid.split("/", 1)[1].rsplit("/", 1)[0] if "/" in oid else oid
         # pack option LOCK_OPTIONAL_KINDS (e.g. ("inv-init", "inv-preserve", "decreases")): obligations of these kinds exist only
         # while the code has the construct (a loop rewritten as a comprehension has no invariant); they may disappear as long as
